@@ -77,6 +77,27 @@ CLAIMED["C17"] = {
     "technique": "property-based testing: validity predicates over unified layouts + NumPy reference for values",
 }
 
+CLAIMED["C15"] = {
+    "text": "Exhaustive enumeration of all rank-1 composition pairs (n<=6 quick / 7 thorough) and small rank-2 shapes crossed with a parameter grid, plus Hypothesis-drawn rank 1-4 pairs (axis lengths <=300) across item sizes, thresholds, block-size limits and degree limits; plan_rechunk must return valid chunkings ending in the target within the block budget, old_to_new/intersect_chunks must tile every new block exactly once with in-bounds pieces, and a sample of small rechunks executed through TasksRechunk must reproduce the NumPy array block by block. " + EXPL,
+    "note": "Predicates written from the property text; plan_rechunk is called as TasksRechunk._layer calls it; budget overruns introduced by _bound_degree (listed open finding) are separated from planner overruns by re-planning with degree bounding disabled.",
+    "technique": "exhaustive small-domain enumeration + Hypothesis random inputs vs validity predicates; executed sample vs NumPy",
+}
+CLAIMED["C21"] = {
+    "text": PROG + "; __frisky_graph__ / __frisky_records_chunks__ records are structurally validated (string keys, refs listed in deps, closure, acyclicity, agreeing duplicates, every output key defined) and executed by the harness' own records executor; every output block is compared bitwise with the block the dask graph produces; outputs of one program plus a persisted-input variant are walked with one shared `seen` set; masked arrays must decline. " + EXPL,
+    "note": "The native extension is absent here, so every node goes through the generic records adapter (the path the property calls faithful by construction); TaskRef resolution follows the protocol docstring.",
+    "technique": "property-based testing: differential (records executor vs dask graph executor) + validity predicate over records",
+}
+CLAIMED["C26"] = {
+    "text": "Generated import orders of dask_array submodules and xarray (exhaustive single-module orders in the thorough tier, sampled in quick; Hypothesis permutations of 5-40 modules with xarray and register() at drawn positions), each run in a fresh interpreter with xarray's chunk manager, isactive() and DataArray.chunk() backend observed after every import; entry-point declarations re-read from pyproject.toml and installed metadata; generated xarray programs compared NumPy-backed vs dask_array-backed after register(). " + EXPL,
+    "note": "State is observed by reading xarray's cached manager table without clearing it (active and passive observation policies both exercised); 27 wrapper modules that need the absent native extension raise ImportError, which is swallowed like a user's try/import.",
+    "technique": "property-based testing over import histories in fresh interpreters + differential xarray programs",
+}
+CLAIMED["C27"] = {
+    "text": PROG + " incl. unknown-chunk producers: transfer_bytes evaluated on every node of the raw/simplified/lowered/fused/materialised trees (real pair, 0<=min<=max, NaN only beside unknown chunks, (0,0) for alias nodes and same-chunks rechunks); moved_fraction exhaustively on all composition pairs n<=7 (thorough n<=10) and random layouts up to n=500 against range, zero-for-split/identical and a brute-force model of its docstring; per-stage rechunk transfer on random layout pairs. " + EXPL,
+    "note": "Alias node types are those the code's docstrings describe as pure alias layers (RootAlias, ChunksOverride, ChunksFreeze, Concatenate, Blocks); no magnitudes or monotonicity asserted.",
+    "technique": "property-based testing + exhaustive layout pairs vs validity predicates and a brute-force model",
+}
+
 NOT_APPLICABLE = {
     "C22": "native Rust extension cannot be built offline (pyo3 0.29 and other crates are absent from the offline cargo registry; no prebuilt .so), so no native layer can be instantiated to generate inputs against; see DESIGN.md section 4 C22",
 }
